@@ -4,17 +4,31 @@ Real provider + real consumer(s) + real ConsumerMdib over the loop-back transpor
 transaction (all its notifications have been delivered in emission order) the canonical snapshot of every consumer MDIB must
 equal the provider snapshot at that MdibVersion; the observables the consumer fired while processing the reports of that
 transaction must name exactly the entities found in the report bytes on the wire (parsed independently with lxml).
+
+Round 4: (a) the initial load is also decided while the provider keeps committing: transactions are injected at the four points around the
+GetMdib / GetContextStates requests of init_mdib and reload_all (vf.c01_initload) - after the load the consumer must equal the provider at its
+current version and stay equal; (b) the generator is widened by vf.c01_ops: context states removed through a descriptor transaction (the report
+part lists the states that are left, possibly none), context descriptors created together with states, a channel created with its metrics,
+descriptor updates of every descriptor kind of the MDIB; (c) per report: the description_modifications observable, and no observable of another
+kind names anything.
 """
 from __future__ import annotations
+
+import gc
+import os
 
 from lxml import etree
 
 from sdc11073 import observableproperties as properties
+from sdc11073.mdib.consumermdib import ConsumerMdib
 
-from .. import core, mdibops
+from .. import c01_aioshim, c01_ops, core, mdibops
+from ..c01_initload import POINTS, LoadInjector, decoded_body
 from ..history import snap, snap_equal
 from ..mdibharness import MDIB_FILES, World
 from ..tablewalk import index_vs_scan
+
+c01_aioshim.ensure()   # temporary: the shared loop-back does not know the async client interface of /repo HEAD yet (see the module)
 
 MODULE = 'vf.props.c01'
 MSG = 'http://standards.ieee.org/downloads/11073/11073-10207-2017/message'
@@ -42,7 +56,7 @@ def parse_report(body: bytes):
     rep = b[0]
     name = etree.QName(rep).localname
     out = {'name': name, 'version': (int(rep.get('MdibVersion', '0')), rep.get('SequenceId'), rep.get('InstanceId')), 'states': set(),
-           'ctx': set(), 'created': set(), 'updated': set(), 'deleted': set(), 'state_versions': {}}
+           'ctx': set(), 'created': set(), 'updated': set(), 'deleted': set(), 'state_versions': {}, 'parts': []}
     if name in STATE_REPORTS:
         tag = STATE_REPORTS[name][1]
         for st in rep.iter(f'{{{MSG}}}{tag}'):
@@ -57,6 +71,8 @@ def parse_report(body: bytes):
             key = {'Crt': 'created', 'Upt': 'updated', 'Del': 'deleted'}[mod]
             for d in part.findall(f'{{{MSG}}}Descriptor'):
                 out[key].add(d.get('Handle'))
+            out['parts'].append((key, sorted(d.get('Handle') for d in part.findall(f'{{{MSG}}}Descriptor')),
+                                 sorted(st.get('Handle') or st.get('DescriptorHandle') for st in part.findall(f'{{{MSG}}}State'))))
     return out
 
 
@@ -66,16 +82,23 @@ class Watch:
     def __init__(self, cmdib):
         self.cmdib = cmdib
         self.fired = {name: [] for name in OBSERVABLES}
+        self.reports = []  # values of the description_modifications observable (the complete report object)
         for name in OBSERVABLES:
             properties.strongbind(cmdib, **{name: (lambda value, _n=name: self._on(_n, value))})
+        properties.strongbind(cmdib, description_modifications=self._on_report)
 
     def _on(self, name, value):
         if value:
             self.fired[name].append(dict(value))
 
+    def _on_report(self, value):
+        if value is not None:
+            self.reports.append(value)
+
     def reset(self):
         for v in self.fired.values():
             v.clear()
+        del self.reports[:]
 
 
 def compare(ctx, label, provider_snap, cmdib, detail):
@@ -99,11 +122,13 @@ class ReportMonitor:
     """per delivered notification: consumer state of the entities named in the report before delivery (network policy hook) vs
     after delivery (network observer) -> the set of entities this report changed; compared with the observables fired meanwhile."""
 
-    def __init__(self, ctx, network):
+    def __init__(self, ctx, network, injector=None):
         self.ctx = ctx
         self.by_netloc = {}  # netloc -> (name, cmdib, watch)
         self.pre = {}
         self.detail = {}
+        self.injector = injector  # LoadInjector: transactions executed around the GetMdib / GetContextStates requests of a loading consumer
+        self.suspended = set()  # netlocs of consumers that are re-loading: they buffer the reports, nothing is raised until the replay
         network.policy = self._before
         network.observers.append(self._after)
 
@@ -126,20 +151,14 @@ class ReportMonitor:
         return st
 
     def _before(self, entry):
+        if self.injector is not None:
+            self.injector.before(entry)
         target = self.by_netloc.get(entry.netloc)
-        if target is None or entry.method != 'POST' or not entry.raw_body:
+        if target is None or entry.method != 'POST' or not entry.raw_body or entry.netloc in self.suspended:
             return None
         name, cm, watch = target
         try:
-            import gzip
-            body = entry.raw_body
-            enc = entry.headers.get('Content-Encoding')
-            if enc == 'gzip':
-                body = gzip.decompress(body)
-            elif enc:
-                from sdc11073.httpserver.compression import CompressionHandler
-                body = CompressionHandler.decompress_payload(enc, body)
-            rep = parse_report(body)
+            rep = parse_report(decoded_body(entry))
         except Exception:  # noqa: BLE001
             rep = None
         if rep is None:
@@ -151,6 +170,8 @@ class ReportMonitor:
     def _after(self, entry):
         item = self.pre.pop(entry.seq, None)
         if item is None:
+            if self.injector is not None:
+                self.injector.after(entry)
             return
         rep, before = item
         name, cm, watch = self.by_netloc[entry.netloc]
@@ -165,6 +186,17 @@ class ReportMonitor:
         after = self._state_of(cm, rep)
         changed = {k for k in before if before[k] != after[k]}
         detail = {**self.detail, 'consumer': name, 'report': rep['name'], 'report_mdib_version': rep['version'][0]}
+        # an observable of another kind must not name anything while this report is processed
+        own = ({STATE_REPORTS[rep['name']][0]} if rep['name'] in STATE_REPORTS
+               else {'new_descriptors_by_handle', 'updated_descriptors_by_handle', 'deleted_descriptors_by_handle'}
+               if rep['name'] == 'DescriptionModificationReport' else None)
+        if own is not None:
+            ctx.count('observable.other_kinds.checked')
+            strangers = {o: sorted(set().union(*[set(f) for f in watch.fired[o]])) for o in OBSERVABLES if o not in own and watch.fired[o]}
+            if strangers or (rep['name'] in STATE_REPORTS and watch.reports):
+                ctx.witness(f'observable.other_kind_fired.{rep["name"]}', 'while one report was processed an observable of another kind named entities',
+                            {**detail, 'fired': strangers, 'description_modifications_fired': len(watch.reports)})
+                return
         if rep['name'] in STATE_REPORTS:
             obs = STATE_REPORTS[rep['name']][0]
             kind = 'ctx' if rep['name'] == 'EpisodicContextReport' else 'state'
@@ -203,10 +235,127 @@ class ReportMonitor:
                 if named != expected:
                     ctx.witness(f'observable.{obs}.wrong_entities', f'{obs} names descriptors different from the ones the report changed',
                                 {**detail, 'named': sorted(named), 'changed_by_report': sorted(expected)})
+            # description_modifications: raised once, with a report that lists the parts found on the wire
+            ctx.count('observable.description_modifications.checked')
+            got = []
+            dmt = {'Crt': 'created', 'Upt': 'updated', 'Del': 'deleted'}
+            for r in watch.reports:
+                for part in r.ReportPart:
+                    mod = part.ModificationType
+                    got.append((dmt.get(getattr(mod, 'value', mod), str(mod)) if mod is not None else 'updated',
+                                sorted(d.Handle for d in part.Descriptor),
+                                sorted((st.Handle if st.is_context_state else st.DescriptorHandle) for st in part.State)))
+            if len(watch.reports) != 1 or got != rep['parts']:
+                ctx.witness('observable.description_modifications.wrong_report',
+                            'description_modifications was not raised exactly once with the parts of the report on the wire',
+                            {**detail, 'raised': len(watch.reports), 'observable_parts': got[:6], 'wire_parts': rep['parts'][:6]})
+
+
+def draw_op(rng, xr, mdib, memo, weights, p_extra=0.12):
+    """one operation: the shared generator, now and then one of the C01-only kinds (own random stream)"""
+    if xr.random() < p_extra:
+        op = c01_ops.gen(xr, mdib, memo)
+        if op is not None:
+            return op
+    return mdibops.gen_op(rng, mdib, memo, weights)
+
+
+def count_op(ctx, op, ap):
+    ctx.count(f'op.{op["op"]}')
+    if op['op'] in c01_ops.WEIGHTS and ap.outcome == 'ok':
+        ctx.count(f'op.{op["op"]}.ok')
+        if op['op'] == 'descr_ctx_purge':
+            ctx.count('op.descr_ctx_purge.none_left' if op['sub'] == 'all' else 'op.descr_ctx_purge.some_left')
+
+
+def random_plan(xr, points):
+    """number of transactions per injection point: mostly one point, sometimes several, sometimes a burst"""
+    plan = dict.fromkeys(points, 0)
+    shape = xr.choice(['one', 'one', 'two', 'all', 'burst'])
+    if shape == 'one':
+        plan[xr.choice(points)] = 1
+    elif shape == 'two':
+        for p in xr.sample(points, min(2, len(points))):
+            plan[p] = xr.choice([1, 2])
+    elif shape == 'all':
+        for p in points:
+            plan[p] = 1
+    else:
+        plan[xr.choice(points)] = xr.choice([3, 5])
+    return plan
+
+
+def load_with_injection(ctx, world, injector, monitor, plan, next_op, label, how='initial_load', target=None, bystanders=(), loader=None):
+    """attach a new consumer (how='initial_load'; with ``loader`` - a connected SdcConsumer without MDIB - only a new ConsumerMdib is
+    created and initialised) or re-load an attached one (how='reload_all', target=(cmdib, netloc)) while the provider commits the
+    transactions of ``plan``.  ``bystanders`` = (name, cmdib) of the consumers that are not loading: they are compared after
+    every injected transaction, like after any other.  Returns (consumer, cmdib, injected ops, bystanders ok) or None if the load raised."""
+    injected = []
+    ok = [True]
+    total = sum(plan.values())
+
+    def judge_bystanders(point, op, outcome):   # after every injected transaction; a single one is judged when the load is over (same state)
+        psnap = snap(world.mdib)
+        for cname, cmdib in bystanders:
+            if ok[0] and not compare(ctx, cname, psnap, cmdib, {**label, 'step': f'{how}:{point}', 'op': op, 'outcome': outcome}):
+                ok[0] = False
+
+    def run(point, k):
+        op = next_op(point, k)
+        monitor.detail = {**label, 'step': f'{how}:{point}', 'op': op}
+        ap = c01_ops.apply_op(world.mdib, op, world.vf_memo)
+        count_op(ctx, op, ap)
+        injected.append((point, op, ap.outcome))
+        if ap.outcome == 'ok' and ap.expect == 'commit':
+            ctx.count(f'initload.tx.{point}')
+            ctx.count('initload.tx')
+        if total > 1:
+            judge_bystanders(point, op, ap.outcome)
+
+    injector.arm(plan, run)
+    try:
+        if how == 'initial_load' and loader is not None:
+            loader.set_mdib(None)   # detach the previous ConsumerMdib (public API), the consumer accepts one MDIB at a time
+            consumer, cmdib = loader, ConsumerMdib(loader)
+            cmdib.init_mdib()
+        elif how == 'initial_load':
+            consumer, cmdib = world.add_consumer()
+        else:
+            consumer, (cmdib, netloc) = None, target
+            monitor.suspended.add(netloc)
+            try:
+                cmdib.reload_all()
+            finally:
+                monitor.suspended.discard(netloc)
+    except Exception as ex:  # noqa: BLE001
+        import traceback
+        tb = [f'{f.filename.rsplit("/", 1)[-1]}:{f.lineno}:{f.name}' for f in traceback.extract_tb(ex.__traceback__)][-5:]
+        ctx.witness(f'{how}.raises.{type(ex).__name__}', 'loading the MDIB from a provider that commits transactions meanwhile raised',
+                    {**label, 'plan': plan, 'injected': [(p, o['op'], o.get('sub'), out) for p, o, out in injected], 'exception': repr(ex)[:300], 'tb': tb})
+        return None
+    finally:
+        injector.disarm()
+    ctx.count(f'initload.{how}')
+    if 'GetContextStates' in injector.seen:
+        ctx.count(f'initload.{how}.with_GetContextStates')
+    if injected:
+        ctx.count(f'initload.{how}.with_tx')
+    if total == 1 and injected:
+        judge_bystanders(*injected[0])
+    return consumer, cmdib, injected, ok[0]
+
+
+def load_key(plan, injected):
+    """stable name of the schedule class of one load: the injection point when there is exactly one, 'tx_inflight' for several, '' for none"""
+    points = sorted({p for p, _, out in injected})
+    if not points:
+        return None
+    return f'tx_{points[0]}' if len(points) == 1 else 'tx_inflight'
 
 
 def w_histories(ctx: core.Ctx, arg):
     rng = ctx.rng('hist', arg['i'])
+    xr = ctx.rng('hist-x', arg['i'])
     for hno in range(arg['n']):
         mdib_file = MDIB_FILES[(arg['i'] + hno) % len(MDIB_FILES)]
         variant = (arg['i'] + hno // 4) % 4
@@ -216,38 +365,91 @@ def w_histories(ctx: core.Ctx, arg):
         world = World(mdib_file, async_mgr=async_mgr, role_provider=False, contextstates_in_getmdib=ctx_in_getmdib, instance_id=instance_id)
         mdib = world.mdib
         consumers = []
-        monitor = ReportMonitor(ctx, world.network)
+        injector = LoadInjector(f'{world.provider_server.host}:{world.provider_server.port}', mdib)
+        monitor = ReportMonitor(ctx, world.network, injector)
         c, cm = world.add_consumer()
         consumers.append(('first', cm, Watch(cm), f'127.0.0.1:{c.vf_server.server_port}'))
         monitor.add(consumers[-1][3], 'first', cm, consumers[-1][2])
         late_at = rng.randrange(3, max(4, arg['len'] - 2))
-        memo = {}
+        reload_at = xr.randrange(late_at + 1, arg['len'] + 1)   # the late consumer loads everything once more (== len: never)
+        memo = world.vf_memo = {}
         weights = dict(mdibops.DEFAULT_WEIGHTS)
         weights.update({'abort': 1, 'reject': 1})
         label = {'mdib_file': mdib_file, 'async_mgr': async_mgr, 'contextstates_in_getmdib': ctx_in_getmdib, 'instance_id': instance_id,
                  'history': [arg['i'], hno]}
+        points = list(POINTS) if not ctx_in_getmdib else list(POINTS[:2])
+        # directed steps (executed in addition to the drawn ones): the context entity of the prelude loses one state, then all of them, in
+        # descriptor transactions; a context descriptor is created with two states; a channel is created together with its metrics; an entity
+        # that went stale is written in a state transaction (state kind rotates over the histories)
+        ctx0 = (mdibops.catalog(mdib)['context'] or [None])[0]
+        directed = {11: [lambda: c01_ops.gen_purge(xr, mdib, memo, 'one', ctx0), lambda: c01_ops.gen_purge(xr, mdib, memo, 'all', ctx0)],
+                    14: [lambda: c01_ops.gen_create_ctx(xr, mdib, memo, 2), lambda: c01_ops.gen_create_tree(xr, mdib, memo)]}
+
+        def stale_entity(kind=mdibops.STATE_OPS[(arg['i'] + hno) % len(mdibops.STATE_OPS)]):
+            # the application keeps an entity, the state is updated by another transaction, then the kept (stale) entity is written
+            cat = mdibops.catalog(mdib)
+            pool = cat[kind] or cat['metric']
+            if not pool:
+                return []
+            h = xr.choice(pool)
+            kind = kind if cat[kind] else 'metric'
+            return [{'op': 'entity_stash', 'handle': h, 'iface': 'entity', 'seed': 1},
+                    {'op': kind, 'handles': [h], 'iface': 'classic', 'seed': xr.randrange(1 << 30)},
+                    {'op': 'entity_write_stashed', 'handle': h, 'iface': 'entity', 'seed': xr.randrange(1 << 30)}]
+
+        directed[17] = [stale_entity]
         shapes = []
-        ok = True
-        for step in range(arg['len']):
-            if step == late_at:
-                c2, cm2 = world.add_consumer()
-                consumers.append(('late', cm2, Watch(cm2), f'127.0.0.1:{c2.vf_server.server_port}'))
-                monitor.add(consumers[-1][3], 'late', cm2, consumers[-1][2])
-                ctx.count('consumer.attached_late')
-                ok = compare(ctx, 'late-initial', snap(mdib), cm2, {**label, 'step': step, 'op': {'op': 'initial_load'}}) and ok
-            op = mdibops.gen_op(rng, mdib, memo, weights)
+        state = {'ok': True}
+
+        def one_step(step, op):
             monitor.detail = {**label, 'step': step, 'op': op}
-            ap = mdibops.apply_op(mdib, op, memo)
-            ctx.count(f'op.{op["op"]}')
+            ap = c01_ops.apply_op(mdib, op, memo)
+            count_op(ctx, op, ap)
             shapes.append(mdibops.op_shape(ap))
             ctx.case(('tr', mdib_file, variant) + mdibops.op_shape(ap), nontrivial=ap.outcome == 'ok')
             psnap = snap(mdib)
             detail = {**label, 'step': step, 'op': op, 'outcome': ap.outcome}
-            for cname, cm, watch, netloc in consumers:
-                if not compare(ctx, cname, psnap, cm, detail):
-                    ok = False
-            if not ok:
+            for cname, cmdib, watch, netloc in consumers:
+                if not compare(ctx, cname, psnap, cmdib, detail):
+                    state['ok'] = False
+            return state['ok']
+
+        def next_op(point, k):
+            return draw_op(rng, xr, mdib, memo, weights, p_extra=0.25)
+
+        for step in range(arg['len']):
+            if step == late_at or (step == reload_at and len(consumers) > 1):
+                how = 'initial_load' if step == late_at else 'reload_all'
+                plan = random_plan(xr, points) if xr.random() < 0.75 else dict.fromkeys(points, 0)
+                res = load_with_injection(ctx, world, injector, monitor, plan, next_op, label, how,
+                                          target=None if how == 'initial_load' else (consumers[1][1], consumers[1][3]),
+                                          bystanders=[(cname, cmdib) for cname, cmdib, _, _ in (consumers if how == 'initial_load' else consumers[:1])])
+                if res is None or not res[3]:
+                    state['ok'] = False
+                    break
+                c2, cm2, injected = res[:3]
+                if how == 'initial_load':
+                    consumers.append(('late', cm2, Watch(cm2), f'127.0.0.1:{c2.vf_server.server_port}'))
+                    monitor.add(consumers[-1][3], 'late', cm2, consumers[-1][2])
+                    ctx.count('consumer.attached_late')
+                sub = load_key(plan, injected)
+                ctx.case(('load', how, variant, tuple(sorted((p, o['op'], o.get('sub')) for p, o, _ in injected))))
+                if not compare(ctx, 'late-initial' if how == 'initial_load' else 'late', snap(mdib), consumers[1][1],
+                               {**label, 'step': step, 'op': {'op': how, 'sub': sub} if sub else {'op': how}, 'plan': plan,
+                                'injected': [(p, o['op'], o.get('sub'), out) for p, o, out in injected]}):
+                    state['ok'] = False
+                if not state['ok']:
+                    break
+            for mk in directed.get(step, []):
+                ops = mk()
+                for op in (ops if isinstance(ops, list) else [ops]):
+                    if op is not None and state['ok']:
+                        one_step(f'{step}+', op)
+            if not state['ok']:
                 break
+            if not one_step(step, draw_op(rng, xr, mdib, memo, weights)):
+                break
+        ok = state['ok']
         if ok and hno == 0:
             # last act of the history: the provider application removes a context state through the entity interface (the library offers
             # that; BICEPS has no report for it), then reports another context change.  The consumer has then processed every report.
@@ -271,12 +473,167 @@ def w_histories(ctx: core.Ctx, arg):
         world.stop()
 
 
+LOAD_KINDS = ['metric', 'alert', 'component', 'operational', 'rt', 'context', 'location', 'descr_update', 'descr_create', 'descr_delete',
+              'descr_ctx_entity', 'descr_ctx_purge', 'descr_create_ctx', 'descr_with_state']
+
+
+def op_of_kind(kind, rng, mdib, memo):
+    if kind in c01_ops.GENERATORS:
+        return c01_ops.GENERATORS[kind](rng, mdib, memo)
+    op = mdibops.gen_op(rng, mdib, memo, {kind: 1})
+    return op if op['op'] == kind else None
+
+
+def w_initload(ctx: core.Ctx, arg):
+    """directed matrix of the initial load: (injection point) x (transaction kind), exactly one transaction committed at that point while a new
+    consumer loads; then random plans (several points, bursts) for new consumers and for reload_all of an attached one.  After every load
+    the loading consumer and the one that was attached from the start must equal the provider, and again after two more transactions."""
+    rng = ctx.rng('initload', arg['i'])
+    k = arg['i']
+    mdib_file = MDIB_FILES[k % len(MDIB_FILES)]
+    async_mgr = (k // 4) % 2 == 1
+    ctx_in_getmdib = arg['ctx_in_getmdib']
+    instance_id = [1, 0, None, 42][(k // 2) % 4]
+    world = World(mdib_file, async_mgr=async_mgr, role_provider=False, contextstates_in_getmdib=ctx_in_getmdib, instance_id=instance_id)
+    mdib = world.mdib
+    injector = LoadInjector(f'{world.provider_server.host}:{world.provider_server.port}', mdib)
+    monitor = ReportMonitor(ctx, world.network, injector)
+    label = {'mdib_file': mdib_file, 'async_mgr': async_mgr, 'contextstates_in_getmdib': ctx_in_getmdib, 'instance_id': instance_id,
+             'workload': 'initload', 'job': k}
+    memo = world.vf_memo = {}
+    weights = dict(mdibops.DEFAULT_WEIGHTS)
+    weights.update({'abort': 0, 'reject': 0, 'empty': 0, 'unget': 0, 'entity_stash': 0, 'entity_write_stashed': 0})
+    c, cm = world.add_consumer()
+    first = ('first', cm, Watch(cm), f'127.0.0.1:{c.vf_server.server_port}')
+    monitor.add(first[3], 'first', cm, first[2])
+    points = list(POINTS) if not ctx_in_getmdib else list(POINTS[:2])
+
+    def settle(consumers, detail):
+        psnap = snap(mdib)
+        ok = True
+        for cname, cmdib in consumers:
+            ok = compare(ctx, cname, psnap, cmdib, detail) and ok
+        return ok
+
+    def plain_steps(n, consumers, tag):
+        for j in range(n):
+            op = draw_op(rng, rng, mdib, memo, weights, p_extra=0.2)
+            monitor.detail = {**label, 'step': tag, 'op': op}
+            ap = c01_ops.apply_op(mdib, op, memo)
+            count_op(ctx, op, ap)
+            ctx.case(('tr', mdib_file, 'initload') + mdibops.op_shape(ap), nontrivial=ap.outcome == 'ok')
+            if not settle(consumers, {**label, 'step': tag, 'op': op, 'outcome': ap.outcome}):
+                return False
+        return True
+
+    try:
+        if not plain_steps(12, [('first', cm)], 'prelude'):   # the prelude of the generator: a context descriptor with several states ...
+            return
+        cases = [(p, kind) for kind in arg['kinds'] for p in points]
+        cases += [(None, None)] * arg['random_loads']
+        # the loading side: one connected SdcConsumer (compiling its schema validators costs more than a whole load); every case creates a
+        # new ConsumerMdib on it and initialises it - the previous one is dropped.  Every 8th case a complete new consumer attaches.
+        loader, _ = world.add_consumer(with_mdib=False)
+        loader_netloc = f'127.0.0.1:{loader.vf_server.server_port}'
+        attached = None   # (consumer, cmdib, netloc) of the last loaded consumer: re-loaded in the random part
+        for n, (point, kind) in enumerate(cases):
+            how = 'initial_load'
+            if point is not None:
+                plan = {point: 1}
+
+                def next_op(pt, j, _kind=kind):
+                    return op_of_kind(_kind, rng, mdib, memo) or draw_op(rng, rng, mdib, memo, weights)
+            else:
+                plan = random_plan(rng, points)
+                if attached is not None and rng.random() < 0.4:
+                    how = 'reload_all'
+
+                def next_op(pt, j):
+                    return draw_op(rng, rng, mdib, memo, weights, p_extra=0.25)
+            fresh = n % 8 == 7
+            if how == 'initial_load' and attached is not None:    # one loading consumer MDIB at a time: the previous one leaves
+                monitor.by_netloc.pop(attached[2], None)
+                if attached[0] is not loader:
+                    attached[0].stop_all(unsubscribe=True)
+                attached = None
+                gc.collect()   # (a dropped ConsumerMdib that is still alive would only cost time: it keeps following the reports)
+            res = load_with_injection(ctx, world, injector, monitor, plan, next_op, label, how, bystanders=[('first', cm)],
+                                      target=None if how == 'initial_load' else (attached[1], attached[2]), loader=None if fresh else loader)
+            if res is None or not res[3]:
+                return
+            c2, cm2, injected = res[:3]
+            if how == 'initial_load':
+                attached = (c2, cm2, f'127.0.0.1:{c2.vf_server.server_port}')
+                monitor.add(attached[2], 'loaded', cm2, Watch(cm2))
+                ctx.count('initload.new_consumer' if fresh else 'initload.new_mdib_of_connected_consumer')
+            sub = load_key(plan, injected)
+            done = [(p, o['op'], o.get('sub'), out) for p, o, out in injected]
+            ctx.case(('load', how, point, kind, ctx_in_getmdib, async_mgr, tuple(sorted(done))), nontrivial=bool(injected))
+            if point is not None and injected and injected[0][1]['op'] == kind and injected[0][2] == 'ok':
+                ctx.count('initload.directed_cases')
+            consumers = [('first', cm), ('loaded' if how == 'initial_load' else 'reloaded', attached[1])]
+            detail = {**label, 'case': n, 'op': {'op': how, 'sub': sub} if sub else {'op': how}, 'plan': plan, 'injected': done}
+            if not settle(consumers[1:], detail):
+                return
+            if not plain_steps(1 if point is not None else 2, consumers, f'after_{how}'):
+                return
+    finally:
+        world.stop()
+
+
+def w_kinds(ctx: core.Ctx, arg):
+    """every descriptor kind of the MDIB is updated once through each interface (descriptor transaction), every state kind once through its
+    state transaction; the mirror is compared after each."""
+    rng = ctx.rng('kinds', arg['i'])
+    mdib_file = MDIB_FILES[arg['i'] % len(MDIB_FILES)]
+    world = World(mdib_file, async_mgr=arg['i'] % 2 == 1, role_provider=False)
+    mdib = world.mdib
+    monitor = ReportMonitor(ctx, world.network)
+    c, cm = world.add_consumer()
+    monitor.add(f'127.0.0.1:{c.vf_server.server_port}', 'first', cm, Watch(cm))
+    label = {'mdib_file': mdib_file, 'workload': 'kinds'}
+    memo = {}
+    try:
+        for kind in sorted(c01_ops.kinds_present(mdib)):
+            for iface in ('classic', 'entity'):
+                op = c01_ops.gen_update_kind(rng, mdib, memo, kind, iface)
+                monitor.detail = {**label, 'op': op}
+                ap = c01_ops.apply_op(mdib, op, memo)
+                count_op(ctx, op, ap)
+                ctx.count(f'sweep.descr.{kind}')
+                ctx.count('sweep.descr_updates')
+                ctx.case(('kind', mdib_file, kind, iface, ap.outcome), nontrivial=ap.outcome == 'ok')
+                if not compare(ctx, 'first', snap(mdib), cm, {**label, 'op': op, 'outcome': ap.outcome}):
+                    return
+        # one state of every state NODETYPE through the state transaction of its kind
+        by_type = {}
+        cat = mdibops.catalog(mdib)
+        for group in mdibops.STATE_OPS:
+            for h in cat[group]:
+                st = mdib.states.descriptor_handle.get_one(h, allow_none=True)
+                if st is not None:
+                    by_type.setdefault((group, st.NODETYPE.localname), []).append(h)
+        for (group, tname), handles in sorted(by_type.items()):
+            for iface in ('classic', 'entity'):
+                op = {'op': group, 'handles': [rng.choice(sorted(handles))], 'iface': iface, 'seed': rng.randrange(1 << 30)}
+                monitor.detail = {**label, 'op': op}
+                ap = mdibops.apply_op(mdib, op, memo)
+                ctx.count(f'sweep.state.{tname}')
+                ctx.count('sweep.state_updates')
+                ctx.case(('kind', mdib_file, tname, iface, ap.outcome), nontrivial=ap.outcome == 'ok')
+                if not compare(ctx, 'first', snap(mdib), cm, {**label, 'op': op, 'outcome': ap.outcome}):
+                    return
+    finally:
+        world.stop()
+
+
 def w_realsocket(ctx: core.Ctx, arg):
     """the same histories with NOTHING replaced below the MDIB: real HTTP servers and clients on 127.0.0.1, the default (async) or the sync
     provider components, compression, optional chunking, the consumer's default deferred dispatcher (own worker thread).  Quiescence by a
     barrier on the dispatcher queue (RealWorld.barrier), never by sleeping; a barrier that does not return is inconclusive."""
     from ..realworld import RealWorld
     rng = ctx.rng('real', arg['i'])
+    xr = ctx.rng('real-x', arg['i'])
     for hno in range(arg['n']):
         k = arg['i'] * arg['n'] + hno
         mdib_file = MDIB_FILES[k % len(MDIB_FILES)]
@@ -306,8 +663,8 @@ def w_realsocket(ctx: core.Ctx, arg):
                     consumers.append(('late', c2, cm2))
                     ctx.count('real.consumer_attached_late')
                     ok = compare(ctx, 'late-initial', snap(mdib), cm2, {**label, 'step': step, 'op': {'op': 'initial_load'}}) and ok
-                op = mdibops.gen_op(rng, mdib, memo, weights)
-                ap = mdibops.apply_op(mdib, op, memo)
+                op = draw_op(rng, xr, mdib, memo, weights)
+                ap = c01_ops.apply_op(mdib, op, memo)
                 ctx.count('real.transactions')
                 ctx.count(f'real.op.{op["op"]}')
                 ctx.case(('real', mdib_file, async_mgr, chunk) + mdibops.op_shape(ap), nontrivial=ap.outcome == 'ok')
@@ -331,13 +688,27 @@ def w_realsocket(ctx: core.Ctx, arg):
 
 def run(ctx: core.Ctx):
     ctx.rule = ('seeded provider histories (vf.mdibops) over the 4 sample MDIBs x {sync, async subscription manager} x contextstates_in_getmdib '
-                'on/off, one consumer attached before the first transaction and one after a random prefix; distinct = sequence of '
-                '(op kind, sub kind, interface, abort point, #handles, outcome) + variant; non-trivial = at least one transaction committed')
+                'on/off, one consumer attached before the first transaction and one after a random prefix (0..5 transactions injected at the '
+                'four points around its GetMdib / GetContextStates requests; it re-loads once later); generator widened by vf.c01_ops; initload: '
+                'directed (injection point x transaction kind) + random plans; kinds: every descriptor / state kind once per interface; '
+                'distinct = sequence of (op kind, sub kind, interface, abort point, #handles, outcome) + variant, per load (point, kind, '
+                'injected ops); non-trivial = at least one transaction committed')
     n_hist, length = (48, 40) if ctx.quick else (480, 120)
     jobs = [['w_histories', {'i': k, 'n': n_hist // 16, 'len': length}] for k in range(16)]
     n_real, len_real = (1, 25) if ctx.quick else (6, 80)
     jobs += [['w_realsocket', {'i': k, 'n': n_real, 'len': len_real}] for k in range(8)]
+    # initial loads while the provider commits: directed (point x kind) + random plans; the two halves of the kind list alternate over the
+    # jobs so that every MDIB file meets every kind; three of four jobs keep the context states out of GetMdibResponse (4 injection points)
+    for k in range(8 if ctx.quick else 32):
+        half = (k + k // 4) % 2
+        kinds = LOAD_KINDS[half::2] if ctx.quick else LOAD_KINDS
+        jobs.append(['w_initload', {'i': k, 'ctx_in_getmdib': k % 4 == 3, 'kinds': kinds, 'random_loads': 6 if ctx.quick else 30}])
+    jobs += [['w_kinds', {'i': k}] for k in range(4 if ctx.quick else 8)]
     core.fanout(ctx, MODULE, 'dispatch', jobs, timeout=3000)
+    if os.environ.get('VERIF_C01_DUMP'):   # development aid: all counters (the console shows the first 40 only)
+        import json
+        with open(os.environ['VERIF_C01_DUMP'], 'w') as f:
+            json.dump({'counters': dict(sorted(ctx.counters.items())), 'witnesses': dict(ctx.witness_counts)}, f, indent=1)
     ctx.floor('real.barriers', 100)
     ctx.floor('real.histories.async', 2)
     ctx.floor('real.histories.sync', 2)
@@ -347,6 +718,23 @@ def run(ctx: core.Ctx):
     ctx.floor('report.DescriptionModificationReport', 20)
     ctx.floor('report.context_with_2plus_states', 5)
     ctx.floor('consumer.attached_late', 10)
+    # round 4
+    ctx.floor('initload.initial_load', 100)
+    ctx.floor('initload.initial_load.with_GetContextStates', 60)
+    ctx.floor('initload.initial_load.with_tx', 100)
+    ctx.floor('initload.reload_all.with_tx', 5)
+    ctx.floor('initload.directed_cases', 100)
+    for p in POINTS:
+        ctx.floor(f'initload.tx.{p}', 30)
+    ctx.floor('op.descr_ctx_purge.none_left', 30)
+    ctx.floor('op.descr_ctx_purge.some_left', 30)
+    ctx.floor('op.descr_create_ctx.ok', 20)
+    ctx.floor('op.descr_create_tree.ok', 20)
+    ctx.floor('op.descr_update_kind.ok', 50)
+    ctx.floor('sweep.state_updates', 40)
+    ctx.floor('sweep.descr_updates', 100)
+    ctx.floor('observable.description_modifications.checked', 100)
+    ctx.floor('observable.other_kinds.checked', 1000)
 
 
 def dispatch(ctx: core.Ctx, job):
